@@ -322,3 +322,30 @@ PROPS["C06"] = {
     "level_note": "Trusted: Lean kernel + Mathlib; dumper/driver glue; sampled systems and configurations. The share of solution boxes decided by certificates is in the "
                   "verdict histogram of the evidence (typically > 85 %).",
 }
+
+def _c09_nontrivial(line, verdict):
+    return verdict.startswith("ok") and "no-claim" not in verdict and "no-known-zero" not in verdict
+
+PROPS["C09"] = {
+    "modules": ["IbexProofs.Props.C09", "IbexProofs.Props.C09exist", "IbexProofs.Props.C09rules"],
+    "harnesses": ["h_newton"],
+    "workloads": lambda tier, seed: [{"harness": "h_newton", "tag": "newton", "args": ["c09", seed, 350 if tier == "quick" else 6000]}],
+    "nontrivial": _c09_nontrivial,
+    "rule": "systems with exactly known zeros (planted solution of random square / under-constrained systems, 2-3 regular zeros all known, singular zeros) "
+            "and systems without any zero; boxes around / away from the zeros (tiny, small, medium, large with several zeros, zero on the boundary, the whole domain); "
+            "newton() and CtcNewton (ceil, prec, Gauss-Seidel ratio varied; all variables or a VarSet chosen by get_newton_vars / at random): no known zero lost, "
+            "all zeros kept certified when the box has a regular interval Jacobian, emptied boxes contain no known zero; inflating_newton (from the box / its midpoint, "
+            "with VarSet): success => SolClaim certified by the Krawczyk + regular-Jacobian certificates or refuted by known zeros / by interval exclusion; "
+            "PdcHansenFeasibility (inflating or not): YES => the returned box contains a zero (known zero, Krawczyk certificate on a sub-box) and is refuted when "
+            "interval evaluation on a subdivision excludes a zero; non-trivial = a decided claim",
+    "assumptions": ["claims that are neither certified nor refuted are tagged `uncertified` (tiny existence boxes of a few ulps: the outward-rounded Krawczyk test of the "
+                    "model is not sharp enough; non-rational operators; thick constants) and counted in the verdict histogram",
+                    "LoupFinderCertify is exercised through PdcHansenFeasibility (inflating mode), its only source of feasibility claims"],
+    "trusted": ["expr_io.h dumper", "harness h_newton"],
+    "technique": "Lean 4 proof (existence by Banach fixed point of the Krawczyk operator, uniqueness by regular interval Jacobian + mean value theorem, "
+                 "interval-exclusion refutation, exact rational zeros) as verified certificate checkers run on the outputs of the real Newton procedures",
+    "level_text": "Kernel-checked: exists_zero_of_cert / exists_unique_zero (Krawczyk test accepted => for every parameter value a zero exists in the box; with the "
+                  "uniqueness certificate exactly one, none other in the unicity box), unique_zero, replaceCert_sound' ; run-time rules lostZero_sound, keptAllBy_sound, "
+                  "noZero_sound, hasZeroBy_sound, feasibility_refuted. Every output of every generated call is decided by these rules or tagged uncertified.",
+    "level_note": "Trusted: Lean kernel + Mathlib; dumper/driver glue; sampled systems, boxes and parameters. Fixed: PdcHansenFeasibility false YES (non-inflating mode).",
+}
